@@ -1,4 +1,4 @@
-import HL.Lemmas.ParserShift
+import HL.Lemmas.ParserTwin
 /-
   C07 "A syntax error stays contained in its own entry" — the parser's part, on token streams.
   (The lexer's line locality `lex_line_local` turns these into statements about texts.)
@@ -23,6 +23,10 @@ import HL.Lemmas.ParserShift
   * `C07_suffix_independent_of_damage`  two different damages `Ed₁ Ed₂` leave the part parsed
                            from `B` identical (journal content and errors) whenever they leave
                            the same default year.
+  * `C07_prefix_partial`   entries BEFORE the damage: identical in both files provided both
+                           versions of the damaged entry start in column 1 at the same position
+                           (guard); `C07_blank_line_after_error_counterexample` shows the guard
+                           is needed.
   * counterexamples        `C07_indent_continuation_counterexample` (a line that starts with an
                            Indent continues the entry before it: "B starts in column 1" is needed)
                            and `C07_blank_line_after_error_counterexample` (an entry BEFORE the
@@ -317,6 +321,74 @@ theorem C07_contained_shifted (d : Shift) (A Ed1' Ed2' B' : List Token) (nlA nlE
       exact ⟨t, by simp at ht ⊢; rcases ht with h | h <;> simp [h], hp⟩
     · obtain ⟨t, ht, hp⟩ := zE2.weaken x hx
       exact ⟨t, by simp at ht ⊢; rcases ht with h | h | h <;> simp [h], hp⟩
+
+/-- **Entries before the damage (`_partial`: guard = both versions of the damaged entry start
+    in column 1, at the same position).**  Two files share everything up to and including the
+    Newline `nlA`; then the first continues with `y0 :: Y'`, the second with `z0 :: Z'`, where
+    `y0` and `z0` are tokens in column 1 (neither Indent nor Newline) at the same position.
+    Then everything parsed from the common part `A` is IDENTICAL in both files — the same items
+    (transactions, directives, comments, includes, with all ranges), the same errors, the same
+    default year handed on — and each file continues with the parse of its own tail.
+    Without the guard this is false: `C07_blank_line_after_error_counterexample`. -/
+theorem C07_prefix_partial (A Y' Z' : List Token) (nlA y0 z0 : Token)
+    (hA : ∀ t ∈ A, t.ty ≠ .eof) (hnA : nlA.ty = .newline)
+    (hy : y0.ty ≠ .indent ∧ y0.ty ≠ .newline) (hz : z0.ty ≠ .indent ∧ z0.ty ≠ .newline)
+    (hpos : y0.pos = z0.pos) (hE : ∃ t ∈ y0 :: Y', t.ty = .eof) :
+    ∃ itemsA errsA dyA,
+      parseTokens num cls (A ++ nlA :: y0 :: Y') =
+        (pushAll itemsA (parseFrom num cls y0 Y' dyA).1, errsA ++ (parseFrom num cls y0 Y' dyA).2) ∧
+      parseTokens num cls (A ++ nlA :: z0 :: Z') =
+        (pushAll itemsA (parseFrom num cls z0 Z' dyA).1, errsA ++ (parseFrom num cls z0 Z' dyA).2) := by
+  let T : Tails := ⟨y0, Y', z0, Z', hpos, hy.1, hy.2, hz.1, hz.2⟩
+  -- the two initial states
+  obtain ⟨c, P, hc⟩ : ∃ c P, A ++ [nlA] = c :: P := by
+    cases A with
+    | nil => exact ⟨nlA, [], rfl⟩
+    | cons a A' => exact ⟨a, A' ++ [nlA], rfl⟩
+  have e1 : A ++ nlA :: y0 :: Y' = c :: (P ++ y0 :: Y') := by
+    have : A ++ nlA :: y0 :: Y' = (A ++ [nlA]) ++ y0 :: Y' := by simp
+    rw [this, hc]; rfl
+  have e2 : A ++ nlA :: z0 :: Z' = c :: (P ++ z0 :: Z') := by
+    have : A ++ nlA :: z0 :: Z' = (A ++ [nlA]) ++ z0 :: Z' := by simp
+    rw [this, hc]; rfl
+  have hlast : lastNL (c.ty = .newline) P = true := by
+    cases A with
+    | nil =>
+      simp at hc
+      rw [← hc.1, hc.2]
+      simp [lastNL, hnA]
+    | cons a A' =>
+      simp at hc
+      rw [← hc.2, lastNL_append]
+      simp [lastNL, hnA]
+  have hne : ∀ t ∈ c :: P, t.ty ≠ .eof := by
+    intro t ht
+    rw [← hc] at ht
+    simp only [List.mem_append, List.mem_singleton] at ht
+    rcases ht with h | h
+    · exact hA t h
+    · rw [h, hnA]; simp
+  let s1 : PState (List Token) := ⟨P ++ y0 :: Y', c, [], 0⟩
+  let s2 : PState (List Token) := ⟨P ++ z0 :: Z', c, [], 0⟩
+  have hin : In T s1 s2 := ⟨rfl, rfl, rfl, P, rfl, rfl, hlast⟩
+  obtain ⟨items, new, dy, hrun⟩ := twin_sync num cls T hE P.length s1 s2 P (Nat.le_refl _) hin rfl hne
+  obtain ⟨r1, r2⟩ := hrun _ _ _ _ (measure_le_fuelOf _ s1) (measure_le_fuelOf _ s2)
+    (measure_le_fuelOf _ (headState y0 Y' ([] ++ new) dy)) (measure_le_fuelOf _ (headState z0 Z' ([] ++ new) dy))
+  have p1 := parse_resync num cls y0 Y' ([] ++ new) dy
+  have p2 := parse_resync num cls z0 Z' ([] ++ new) dy
+  refine ⟨items, new, dy, ?_, ?_⟩
+  · rw [e1]
+    show ((parseJournal (listEnv num cls) s1).1, (parseJournal (listEnv num cls) s1).2.errors) = _
+    have : parseJournal (listEnv num cls) s1 = _ := r1
+    rw [this]
+    simp only [List.nil_append] at p1 ⊢
+    exact Prod.ext (by rw [← p1.1]; rfl) (by rw [← p1.2]; rfl)
+  · rw [e2]
+    show ((parseJournal (listEnv num cls) s2).1, (parseJournal (listEnv num cls) s2).2.errors) = _
+    have : parseJournal (listEnv num cls) s2 = _ := r2
+    rw [this]
+    simp only [List.nil_append] at p2 ⊢
+    exact Prod.ext (by rw [← p2.1]; rfl) (by rw [← p2.2]; rfl)
 
 /-! ### counterexamples (closed token lists taken from the real lexer; `decide`) -/
 
